@@ -1,4 +1,7 @@
+#[cfg(not(kani))]
 use std::collections::hash_map::{Entry, HashMap, OccupiedEntry};
+#[cfg(kani)]
+use crate::verif_collections::hash_map::{Entry, HashMap, OccupiedEntry};
 
 #[derive(Debug)]
 pub(crate) struct SerialMap<T> {
@@ -45,3 +48,7 @@ impl<T> SerialMap<T> {
         }
     }
 }
+
+#[cfg(kani)]
+#[path = "/verif/harness/broker/serial_map.rs"]
+pub(crate) mod verif;
